@@ -295,6 +295,11 @@ func (c *Conn) Write(b []byte) (int, error) {
 	if len(b) == 0 {
 		return 0, nil
 	}
+	if c.wdl != 0 && c.wdl <= s.Now {
+		// like a real net.Conn: a write after the deadline fails at once
+		c.Timeouts++
+		return 0, ErrTimeout
+	}
 	// injected transport failure: the Write that crosses stream offset FailAt gets
 	// only the bytes before it onto the wire and returns FailErr (once)
 	var failErr error
@@ -551,6 +556,12 @@ func (c *Conn) SetDeadline(t time.Time) error {
 
 func deadlineNS(t time.Time) int64 {
 	if t.IsZero() {
+		return 0
+	}
+	if t.Before(Epoch.Add(-24 * time.Hour)) {
+		// computed from the real clock by code outside the instrumented tree (the
+		// standard library's tls sets "now + 5 s" around close_notify): virtual time
+		// starts at Epoch, such a deadline means nothing here
 		return 0
 	}
 	ns := int64(t.Sub(Epoch))
